@@ -1367,8 +1367,10 @@ fn find_all(hay: &[u8], needle: &[u8]) -> Vec<usize> {
 /// Not checked: everything else inside the files (C08), the spelling of walked files.
 fn judge_binary(fs: &Fs, exp: &Expected, stdin: &[u8]) -> CaseResult {
     use crate::wire::{enc_string, enc_varuint};
-    let n_src: usize = exp.blocks.iter().filter(|b| b.is_source).map(|b| b.nodes.len()).sum();
-    let n_ref: usize = exp.blocks.iter().filter(|b| !b.is_source).map(|b| b.nodes.len()).sum();
+    // files that declare no module (empty ones) are compiled but not sent to generators
+    let sent = |id: &Id| !matches!(&fs.nodes[*id].kind, Kind::File { content: Content::Empty, .. });
+    let n_src: usize = exp.blocks.iter().filter(|b| b.is_source).map(|b| b.nodes.iter().filter(|i| sent(i)).count()).sum();
+    let n_ref: usize = exp.blocks.iter().filter(|b| !b.is_source).map(|b| b.nodes.iter().filter(|i| sent(i)).count()).sum();
     let mut header = enc_string("generateCode");
     header.extend(enc_varuint(n_src as u64).unwrap());
     check!(
@@ -1387,7 +1389,7 @@ fn judge_binary(fs: &Fs, exp: &Expected, stdin: &[u8]) -> CaseResult {
     for (id, node) in fs.nodes.iter().enumerate() {
         let Kind::File { id: n, .. } = &node.kind else { continue };
         let hits = find_all(stdin, &marker(*n));
-        if all.contains(&id) {
+        if all.contains(&id) && sent(&id) {
             check!(
                 hits.len() == 1,
                 if hits.is_empty() { "binary/file-missing-in-request" } else { "binary/file-twice-in-request" },
@@ -1408,8 +1410,9 @@ fn judge_binary(fs: &Fs, exp: &Expected, stdin: &[u8]) -> CaseResult {
     // order
     let mut last_end = 0usize;
     for b in &exp.blocks {
-        let lo = b.nodes.iter().map(|i| pos_of[i]).min().unwrap();
-        let hi = b.nodes.iter().map(|i| pos_of[i]).max().unwrap();
+        let (Some(lo), Some(hi)) = (b.nodes.iter().filter_map(|i| pos_of.get(i).copied()).min(), b.nodes.iter().filter_map(|i| pos_of.get(i).copied()).max()) else {
+            continue; // a block of module-less files only
+        };
         check!(
             lo >= last_end,
             if b.is_source { "binary/order/sources" } else { "binary/order/references" },
@@ -1436,8 +1439,7 @@ fn judge_binary(fs: &Fs, exp: &Expected, stdin: &[u8]) -> CaseResult {
             );
         }
     }
-    if let Some(first) = exp.blocks.iter().find(|b| b.is_source) {
-        let id = first.nodes.iter().next().unwrap();
+    if let Some(id) = exp.blocks.iter().filter(|b| b.is_source).flat_map(|b| b.nodes.iter()).filter(|i| pos_of.contains_key(i)).min_by_key(|i| pos_of[i]) {
         check!(
             path_start.get(id) == Some(&header.len()),
             "binary/first-source-position",
@@ -1451,6 +1453,7 @@ fn judge_binary(fs: &Fs, exp: &Expected, stdin: &[u8]) -> CaseResult {
         .iter()
         .filter(|b| !b.is_source)
         .flat_map(|b| b.nodes.iter())
+        .filter(|i| pos_of.contains_key(i))
         .min_by_key(|i| pos_of[i]);
     match first_ref {
         Some(id) => {
@@ -1693,8 +1696,8 @@ fn gen_tree(c: &mut Ch, flavour: Flavour) -> Tree {
             170..=199 => (format!("b{i}.slice"), if flavour == Flavour::Binary { Content::Valid } else { Content::Bad }),
             200..=219 => (
                 format!("e{i}.slice"),
-                // F-01a: the binary cannot send a module-less file to a generator
-                if flavour == Flavour::Binary { Content::Valid } else { Content::Empty },
+                // (since the repair of F-01a the binary skips module-less files in the request)
+                Content::Empty,
             ),
             _ => (format!("u{i}.slice"), if sel < 238 { Content::Valid } else { Content::Binary }),
         };
